@@ -69,6 +69,25 @@ def run(ctx):
             ev += 1
             if not dom.relclose(a + b, dq, 1e-7) or not (a >= 0 and b >= 0 and dq > 0):
                 bad("quadrature pseudopressure is not additive / increasing over adjacent intervals", dict(**inp, p=[float(P[i]), float(P[kmid]), float(P[j])]), dict(a=a, b=b, total=dq))
+        # a DIFFERENT gas described with the same numbers under other component names (N2 and CO2 fractions exchanged), built right
+        # after the first one in the same process with the same dryness and maximum pressure: its table is for ITS composition
+        # (the same container kind, the same key positions and the same numbers as the mapping handed in first - only the names of the
+        # two components are exchanged)
+        first_items = list(vals_arg.items())
+        vals_sw = type(vals_arg)({("CO2" if q == "N2" else "N2" if q == "CO2" else q): v for q, v in first_items}) if isinstance(vals_arg, dict) else \
+            {("CO2" if q == "N2" else "N2" if q == "CO2" else q): v for q, v in first_items}
+        with warnings.catch_warnings():
+            warnings.simplefilter("ignore")
+            tb_sw = build_pvt_gas(vals_sw, g["dry"], pmax)
+        tpc_s, ppc_s = gas.pseudocritical_point_Sutton(g["sg"], gas.make_nonhydrocarbon_properties(g["co2"], g["h2s"], g["n2"]), g["dry"])
+        P_s, m_s = np.asarray(tb_sw["pressure"], float), np.asarray(tb_sw["pseudopressure"], float)
+        i_s, j_s = len(P_s) // 5, (4 * len(P_s)) // 5
+        if (T_ := (g["T"] + 459.67) / (tpc_s + 459.67)) >= 1.05 and T_ <= 3:
+            dq_s = gas.pseudopressure_Hussainy(g["T"], float(P_s[j_s]), tpc_s, ppc_s, g["sg"]) - gas.pseudopressure_Hussainy(g["T"], float(P_s[i_s]), tpc_s, ppc_s, g["sg"])
+            ev += 1
+            if not dom.relclose(m_s[j_s] - m_s[i_s], dq_s, 2e-4):
+                bad("the table of a second gas (same numbers, N2 and CO2 fractions exchanged) built right after the first one disagrees with the quadrature for ITS composition",
+                    dict(gas_values={q: (v if isinstance(v, str) else float(v)) for q, v in vals_sw.items()}, built_right_after=vals, dryness=g["dry"], maximum_pressure=pmax, p1=float(P_s[i_s]), p2=float(P_s[j_s])), dict(table=float(m_s[j_s] - m_s[i_s]), quad=float(dq_s)))
         # other spellings of the documented fluid types: rejected, or the table (and so its pseudopressure, which must agree with the
         # quadrature for the gas the caller named) is the one of the type they name
         if k == 0:
